@@ -181,9 +181,14 @@ Proof. vm_compute. reflexivity. Qed.
 Example C49_refuted_whitespace_only_line :         (* a line holding TAB vs a file named TAB *)
   (ignored None [([], [9; 10])] [[9]] false, git_ignored None [([], [9; 10])] [[9]] false) = (false, true).
 Proof. vm_compute. reflexivity. Qed.
-(* two divergences were repaired in go-git (fix: commits, findings/C49.json):
-   trailing spaces are now trimmed by a port of git's trim_trailing_spaces, and a
-   UTF-8 byte order mark at the start of an ignore file is skipped *)
+(* three divergences were repaired in go-git (fix: commits, findings/C49.json):
+   trailing spaces are now trimmed by a port of git's trim_trailing_spaces, a
+   UTF-8 byte order mark at the start of an ignore file is skipped, and
+   [:space:] is git's isspace (no vertical tab, no form feed) *)
+Example C49_fixed_space_class :                    (* x[[:space:]] vs "x" VT *)
+  (ignored None [([], B "x[[:space:]]")] [[120; 11]] false, git_ignored None [([], B "x[[:space:]]")] [[120; 11]] false) = (false, false) /\
+  (ignored None [([], B "x[[:space:]]")] [[120; 9]] false, git_ignored None [([], B "x[[:space:]]")] [[120; 9]] false) = (true, true).
+Proof. vm_compute. split; reflexivity. Qed.
 Example C49_fixed_trailing_space_escape :          (* a\<sp><sp> vs "a " ; a\\<sp> vs "a\" *)
   (ignored None [([], B "a\  ")] [B "a "] false, git_ignored None [([], B "a\  ")] [B "a "] false) = (true, true) /\
   (ignored None [([], B "a\\ ")] [B "a\"] false, git_ignored None [([], B "a\\ ")] [B "a\"] false) = (true, true).
@@ -288,7 +293,7 @@ Example C49_fragment_classes :
   glob_of (bytes_of_string "[[:alpha:]_][[:alnum:]_]*.[![:digit:][:space:]x-z]") =
     Some [ISet false [(65, 90); (97, 122); (95, 95)];
           ISet false [(48, 57); (65, 90); (97, 122); (95, 95)]; IStar; ILit 46;
-          ISet true [(48, 57); (32, 32); (9, 13); (120, 120); (120, 122)]] /\
+          ISet true [(48, 57); (32, 32); (9, 10); (13, 13); (120, 120); (120, 122)]] /\
   wildmatch (bytes_of_string "[[:alpha:]_][[:alnum:]_]*.[![:digit:][:space:]x-z]") (bytes_of_string "_a1.c") = true /\
   wildmatch (bytes_of_string "[[:alpha:]_][[:alnum:]_]*.[![:digit:][:space:]x-z]") (bytes_of_string "_a1.7") = false /\
   glob_of (bytes_of_string "[[:]") = Some [ISet false [(91, 91); (58, 58)]] /\
